@@ -138,7 +138,7 @@ class Sched(Part):
 
 class Focused(Part):
     name = "focused"
-    budget = {"quick": 16, "thorough": 300}
+    budget = {"quick": 16, "thorough": 100}
     min_per_shard = 1
 
     def setup(self, ctx):
